@@ -50,7 +50,7 @@ class AsmWriter:
         for entry in self.parser.memory_map:
             for instruction in entry.instructions:
                 label = instruction.asm_label
-                if label:
+                if label and instruction.address is not None:
                     self.labels[instruction.address] = label
 
         # Determine the base and end addresses
